@@ -170,7 +170,24 @@ def r4_who_may_mutate(ctx):
     return out
 
 
+def r6_resolution_is_contained(ctx):
+    """The dirfds of R1 are only as good as the lookup that produced them: the containment rules of the resolver
+    (verification after '..', before completion, fail-closed path comparison, scoped kernel lookups) and the
+    byte-fidelity of every path handed to the kernel are obligations of this property too."""
+    from .c02 import r1_verify_after_dotdot, r2_verify_before_complete, r3_check_current_fail_closed, r8_kernel_scoping
+    from .c05 import r8_path_fidelity
+    out = []
+    for fn, tag in ((r1_verify_after_dotdot, "verify-after-dotdot"), (r2_verify_before_complete, "verify-before-complete"),
+                    (r3_check_current_fail_closed, "check-current"), (r8_kernel_scoping, "kernel-scoping"), (r8_path_fidelity, "path-fidelity")):
+        for i in fn(ctx):
+            i.key = "%s:%s" % (tag, i.key)
+            i.rule = "C03.R6"
+            out.append(i)
+    return out
+
+
 RULES = [
+    ("C03.R6", r6_resolution_is_contained, 20, False),
     ("C03.R1", r1_dirfd, 15, False),
     ("C03.R2", r2_name, 15, False),
     ("C03.R3", r3_dot_dotdot, 2, False),
